@@ -521,19 +521,37 @@ def learn1(ctx: Ctx, chk) -> None:
         from ..prov import truth3
 
         assume = {"In.child_id == 255": True, "In.node_id == 0": True}
-        for f in tables.chain_defs(ctx, pres, V) if pres else []:
+        # every definition on the chain (wrappers, overrides, the 1.4 handler): each normal path consistent with
+        # node 0 / child 255 runs the version handler or hands over to the next chain element
+        chain = tables.chain_defs(ctx, pres, V) if pres else []
+        has_call = False
+        bad = None
+        for f in chain:
             calls = [x for x in ctx.own_nodes(f) if isinstance(x, ast.Call) and norm(x.func).endswith("handle_i_version")]
-            if not calls:
-                continue
+            wrapped_params = set(f.parent.params) if f.parent is not None else set()
+            deleg = []
+            for c in ctx.own_nodes(f):
+                if not isinstance(c, ast.Call):
+                    continue
+                fn = c.func
+                is_super = isinstance(fn, ast.Attribute) and isinstance(fn.value, ast.Call) and norm(fn.value.func) == "super" and fn.attr == "handle_presentation"
+                is_wrapped = isinstance(fn, ast.Name) and fn.id in wrapped_params
+                if is_super or is_wrapped:
+                    deleg.append(c)
+            if calls:
+                has_call = True
+                locp = ctx.loc(f, calls[0])
             cn = Canon(I, f)
             g = CFG(f.node)
-            locp = ctx.loc(f, calls[0])
-            cnodes = g.nodes_where(lambda x: any(x.contains(c) for c in calls))
-            p = g.reach_avoiding([g.entry], lambda x: x is g.exit, lambda x: x in cnodes, labels_skip=("exc",), from_succ=False, truth=lambda t, cn=cn: truth3(cn, t.ast, assume))
-            if p is None:
-                reach = True
-            else:
-                why = f"a presentation of node 0 (child 255) can complete without running the version handler ({' -> '.join(g.path_text(p)[1:6])}): a gateway presentation does not update the active protocol (protocol {V})"
+            stop = g.nodes_where(lambda x: any(x.contains(c) for c in calls + deleg))
+            p = g.reach_avoiding([g.entry], lambda x: x is g.exit, lambda x: x in stop, labels_skip=("exc",), from_succ=False, truth=lambda t, cn=cn: truth3(cn, t.ast, assume))
+            if p is not None and bad is None:
+                bad = (f, g.path_text(p))
+        if has_call and bad is None:
+            reach = True
+        elif bad is not None:
+            locp = bad[0].where
+            why = f"a presentation of node 0 (child 255) can complete in {bad[0].qualname} without running the version handler and without handing over to the next handler of the chain ({' -> '.join(bad[1][1:6])}): a gateway presentation does not update the active protocol (protocol {V})"
         if reach:
             chk.ok(rule, f"presentation(node 0)@{V}", "every normal path consistent with child 255 and node 0 calls handle_i_version", locp, sample=False)
         else:
